@@ -498,7 +498,7 @@ class ExprMixin:
         arms = []
         for cond, f in ((t, fa), (z3.Not(t), fb)):
             start = base.snapshot()
-            start.pc.append(cond)
+            self.push_cond(start, cond)
             if not self.smt.feasible(start.pc):
                 arms.append((cond, []))
                 continue
